@@ -18,7 +18,7 @@ RULE = ("direct: (model, gamma, BC name discovered in the model's registry, dir,
         "after rhs(). non-trivial = the parameters differ from the interior state by more than 1% (or, for copy/sym conditions, a non-zero normal velocity); "
         "distinct = distinct canonical JSON")
 ASSUMPTIONS = ["regimes derived from the definitions: insub p_int<=ptot; insub_cbc interior at rest/inflow and rttot>=(p/rho)_int; insup p<=ptot; outsub_qtot outflow and p<=ptot_int",
-               "outsub_nrcbc keeps u - dir*2c/(gamma-1) (the code documents 'C- invariant (or C+ according to dir)'); insub_cbc keeps u + dir*2c/(gamma-1)",
+               "the outgoing Riemann invariant is u + dir*2c/(gamma-1) (carried by the characteristic of speed u + dir*c, which leaves the domain through the side of outward normal dir) for both insub_cbc and outsub_nrcbc",
                "relative tolerance 1e-11/(gamma-1)"]
 
 BC1D = ["sym", "insub", "insub_cbc", "insup", "outsub", "outsub_prim", "outsub_qtot", "outsub_rh", "outsub_nrcbc", "outsup", "dirichlet"]
@@ -100,9 +100,10 @@ def judge_euler(g, bc, nrm, inner, state, par, where):
         w = max(w, _rel(p1, par["p"], tol, "def:outsub_nrcbc-p", "%s outsub_nrcbc imposed pressure" % where))
         w = max(w, _rel(np.log(p1) - g * np.log(rho1), np.log(p0) - g * np.log(rho0), tol, "def:outsub_nrcbc-entropy", "%s outsub_nrcbc entropy" % where,
                         scale=1.0 + np.abs(np.log(p0)) + g * np.abs(np.log(rho0))))
-        j0 = un0 - 2.0 * c0 / (g - 1.0)
-        j1 = un1 - 2.0 * c1 / (g - 1.0)
-        w = max(w, _rel(j1, j0, tol, "def:outsub_nrcbc-invariant", "%s outsub_nrcbc invariant u - dir*2c/(g-1)" % where, scale=np.abs(un0) + 2 * np.maximum(c0, c1) / (g - 1.0)))
+        # outgoing characteristic (speed un + c along the outward normal): its invariant un + 2c/(g-1) is carried from the interior to the boundary state
+        j0 = un0 + 2.0 * c0 / (g - 1.0)
+        j1 = un1 + 2.0 * c1 / (g - 1.0)
+        w = max(w, _rel(j1, j0, tol, "def:outsub_nrcbc-invariant", "%s outsub_nrcbc outgoing invariant u + dir*2c/(g-1)" % where, scale=np.abs(un0) + 2 * np.maximum(c0, c1) / (g - 1.0)))
         nt = bool(np.any(np.abs(p0 / par["p"] - 1) > 0.01))
     elif bc == "outsub_rh":
         w = max(w, _rel(p1, par["p"], tol, "def:outsub_rh-p", "%s outsub_rh imposed pressure" % where))
